@@ -366,9 +366,16 @@ fn check_signatures(st: &mut Stats) {
         ("array-containing-expref", "[a, &a]"), ("nested-array-containing-expref", "[[&a]]"),
     ]);
     for (tname, at, ty) in sig_types() {
-        for variadic in [false, true] {
+        // mode 0: one fixed parameter; 1: one parameter and a variadic tail of the same type; 2: a string parameter
+        // followed by a variadic tail of the type (the tail is validated for every further argument)
+        for mode in [0usize, 1, 2] {
+            let variadic = mode > 0;
             let mut rt = Runtime::new();
-            let sig = if variadic { Signature::new(vec![at.clone()], Some(at.clone())) } else { Signature::new(vec![at.clone()], None) };
+            let sig = match mode {
+                0 => Signature::new(vec![at.clone()], None),
+                1 => Signature::new(vec![at.clone()], Some(at.clone())),
+                _ => Signature::new(vec![ArgumentType::String], Some(at.clone())),
+            };
             rt.register_function(
                 "sf",
                 Box::new(CustomFunction::new(
@@ -388,12 +395,36 @@ fn check_signatures(st: &mut Stats) {
                     argsets.push(vec![i, j]);
                 }
             }
+            if variadic {
+                // three arguments: every combination; four: over a representative subset
+                for i in 0..classes.len() {
+                    for j in 0..classes.len() {
+                        for k in 0..classes.len() {
+                            argsets.push(vec![i, j, k]);
+                        }
+                    }
+                }
+                let sub = [2usize, 3, 5, 8, 9];
+                for i in sub {
+                    for j in sub {
+                        for k in sub {
+                            for l in sub {
+                                argsets.push(vec![i, j, k, l]);
+                            }
+                        }
+                    }
+                }
+            }
             for aset in argsets {
                 st.states += 1;
                 st.transitions += 1;
                 st.evaluations += 1;
                 st.validated += 1;
-                let src = format!("sf({})", aset.iter().map(|&i| classes[i].1).collect::<Vec<_>>().join(", "));
+                let mut texts: Vec<&str> = aset.iter().map(|&i| classes[i].1).collect();
+                if mode == 2 {
+                    texts.insert(0, "'lead'");
+                }
+                let src = format!("sf({})", texts.join(", "));
                 LOG.with(|l| l.borrow_mut().clear());
                 let got = guarded(|| rt.compile(&src).unwrap().search(value_to_var(&json!({"a": 1}))).map(|v| var_to_value(&v)));
                 let invoked = LOG.with(|l| l.borrow().len());
@@ -431,7 +462,7 @@ fn check_signatures(st: &mut Stats) {
                         _ => t.admits(&Eval::builtin().ev(n, &json!({"a": 1})).unwrap()),
                     }
                 }
-                let admits: Vec<bool> = arg_nodes.iter().map(|x| admits_node(&ty, x)).collect();
+                let admits: Vec<bool> = arg_nodes.iter().enumerate().map(|(i, x)| if mode == 2 && i == 0 { admits_node(&Ty::String, x) } else { admits_node(&ty, x) }).collect();
                 let arity_ok = if variadic { !admits.is_empty() } else { admits.len() == 1 };
                 let want: Result<(), ErrClass> = if !arity_ok {
                     Err(ErrClass::InvalidArity)
@@ -454,7 +485,7 @@ fn check_signatures(st: &mut Stats) {
                     st.violate(Violation {
                         key: format!("C15/custom-signature/{}", tname),
                         check: "custom-signature".into(),
-                        case: json!({"kind": "custom-signature", "type": tname, "variadic": variadic, "expression": src}),
+                        case: json!({"kind": "custom-signature", "type": tname, "variadic": variadic, "mode": mode, "expression": src}),
                         expected: format!("{:?}", want),
                         actual: format!("{:?} invoked {} times", got.map(|r| r.map_err(|e| e.reason)), invoked),
                     });
@@ -540,7 +571,9 @@ pub fn run(tier: Tier) -> i32 {
     }
     for v in &vecs {
         let call = format!("rec({})", v.join(", "));
-        for form in [call.clone(), format!("xs[*].{}", call), format!("to_array({})", call), format!("[{}, rec2(b)]", call), format!("xs[?{}]", call), format!("b | {}", call), format!("sort_by(xs, &{})", call), format!("rec2(`0`) && {}", call), format!("rec2(`[]`) && {}", call)] {
+        for form in [call.clone(), format!("xs[*].{}", call), format!("to_array({})", call), format!("[{}, rec2(b)]", call), format!("xs[?{}]", call), format!("b | {}", call), format!("sort_by(xs, &{})", call), format!("rec2(`0`) && {}", call), format!("rec2(`[]`) && {}", call),
+            // behind a null left-hand side, alone and with a further step applied to the call's result
+            format!("nokey | {}", call), format!("nokey.{}", call), format!("nokey | {}.a", call), format!("nokey | {}[0]", call), format!("nokey | {}[]", call), format!("nokey.{}[0]", call), format!("nokey | {}.*", call), format!("nokey | {} | [@]", call)] {
             check_protocol(&rt, &form, &d, &mut st);
         }
     }
